@@ -646,17 +646,42 @@ func (r *rs) pipeCopy() {
 	}
 	rd, wr := reads[0], writes[0]
 	n := assignedVar(info, fn.Decl.Body, rd, 0)
-	buf := flow.Obj(info, rd.Args[0])
-	if n == nil || buf == nil {
-		c.Undecidedf("R6.copy", "pSyncPipeCopy/shape", rd.Pos(), "the byte count of Read is not bound to a variable")
+	// the buffer: a variable, or a field of a struct local that is built once and whose field is never
+	// assigned afterwards (`pc.buf`) - then the same expression denotes the same buffer everywhere
+	isBuf := func(ast.Expr) bool { return false }
+	if bo := flow.Obj(info, rd.Args[0]); bo != nil {
+		isBuf = flow.IsObj(info, bo)
+	} else if sel, ok := ast.Unparen(rd.Args[0]).(*ast.SelectorExpr); ok {
+		if base, isVar := flow.Obj(info, sel.X).(*types.Var); isVar && !base.IsField() && flow.Assignments(info, fn.Decl.Body, base) == 1 {
+			written := false
+			core.InspectAll(fn.Decl.Body, func(m ast.Node) bool {
+				if as, isAs := m.(*ast.AssignStmt); isAs {
+					for _, l := range as.Lhs {
+						if ls, isSel := ast.Unparen(l).(*ast.SelectorExpr); isSel && flow.IsObj(info, base)(ls.X) && ls.Sel.Name == sel.Sel.Name {
+							written = true
+						}
+					}
+				}
+				return !written
+			})
+			if !written {
+				isBuf = func(e ast.Expr) bool {
+					es, ok := ast.Unparen(e).(*ast.SelectorExpr)
+					return ok && flow.IsObj(info, base)(es.X) && es.Sel.Name == sel.Sel.Name
+				}
+			}
+		}
+	}
+	if n == nil || !isBuf(rd.Args[0]) {
+		c.Undecidedf("R6.copy", "pSyncPipeCopy/shape", rd.Pos(), "the byte count of Read is not bound to a variable, or the buffer is not a plain variable")
 		return
 	}
 	// written slice
 	arg := ast.Unparen(flow.Resolve(info, fn.Decl.Body, wr.Args[0]))
 	switch {
-	case prefixOf(info, arg, flow.IsObj(info, buf), flow.IsObj(info, n)):
+	case prefixOf(info, arg, isBuf, flow.IsObj(info, n)):
 		c.Okf("R6.copy", "pSyncPipeCopy/write-prefix", wr.Pos(), "writes p[:n]")
-	case flow.IsObj(info, buf)(arg):
+	case isBuf(arg):
 		c.Failf("R6.copy", "pSyncPipeCopy/write-prefix", wr.Pos(), "the whole buffer is written instead of the n bytes read: stale bytes of earlier reads are injected into the command stream")
 	default:
 		c.Undecidedf("R6.copy", "pSyncPipeCopy/write-prefix", wr.Pos(), "Write argument %s not recognised", c.Src(arg))
@@ -728,7 +753,7 @@ func (r *rs) pipeCopy() {
 				lenOfWritten := false
 				if lc, ok := unconv(info, flow.Resolve(info, fn.Decl.Body, unconv(info, amount))).(*ast.CallExpr); ok && flow.IsBuiltin(info, lc, "len") && len(lc.Args) == 1 {
 					e := ast.Unparen(lc.Args[0])
-					lenOfWritten = pat.Same(info, e, ast.Unparen(wr.Args[0])) || prefixOf(info, ast.Unparen(flow.Resolve(info, fn.Decl.Body, e)), flow.IsObj(info, buf), flow.IsObj(info, n))
+					lenOfWritten = pat.Same(info, e, ast.Unparen(wr.Args[0])) || prefixOf(info, ast.Unparen(flow.Resolve(info, fn.Decl.Body, e)), isBuf, flow.IsObj(info, n))
 				}
 				if am.Tok != readN && am.Tok != writeN && !lenOfWritten {
 					otherAdds++
